@@ -300,7 +300,7 @@ func firstFrames(stack string, n int) string {
 	var out []string
 	for _, l := range strings.Split(stack, "\n") {
 		l = strings.TrimSpace(l)
-		if strings.HasPrefix(l, "/verif/") || strings.HasPrefix(l, "/repo/") {
+		if strings.HasPrefix(l, "/verif/") || strings.HasPrefix(l, RepoRoot()+"/") {
 			out = append(out, strings.Fields(l)[0])
 			if len(out) >= n {
 				break
